@@ -990,13 +990,17 @@ func (c *checker) dbCase(ci int) {
 		return ""
 	}
 	for i, t := range hdr {
-		if e := try(func(ut *db19.UpdateTran) { ut.Output(nil, "hdr", strRec(append(append([]string{}, t...), fmt.Sprint("h", i))...)) }); e != "" {
+		if e := try(func(ut *db19.UpdateTran) {
+			ut.Output(nil, "hdr", strRec(append(append([]string{}, t...), fmt.Sprint("h", i))...))
+		}); e != "" {
 			c.rep.Violate("C12/db/output-hdr-failed", ident, e)
 			return
 		}
 	}
 	for i, t := range lin {
-		if e := try(func(ut *db19.UpdateTran) { ut.Output(nil, "lin", strRec(append(append([]string{}, t...), fmt.Sprint("l", i))...)) }); e != "" {
+		if e := try(func(ut *db19.UpdateTran) {
+			ut.Output(nil, "lin", strRec(append(append([]string{}, t...), fmt.Sprint("l", i))...))
+		}); e != "" {
 			cl := "C12/db/output-lin-failed"
 			if strings.Contains(e, "blocked by foreign key") {
 				cl = "C12/db/output-blocked-although-target-exists"
